@@ -277,7 +277,7 @@ pub fn build() -> Universe {
         vec![coin_input(genesis_utxo(1), COIN_AMOUNT)],
         vec![coin(own, 30_000_000), coin(own, 30_000_000)],
         1000,
-        MAX_FEE,
+        LOW_MAX_FEE,
         vec![],
     );
     let id_a = b.add("a", a);
@@ -367,8 +367,18 @@ pub fn build() -> Universe {
     let tx_m = b.script(vec![msg_input()], vec![], 1800, MAX_FEE, vec![]);
     b.add("m", tx_m);
     // r: an independent plain transfer (coin 2)
-    let tx_r = b.script(vec![coin_input(genesis_utxo(2), COIN_AMOUNT)], vec![], 2600, MAX_FEE, vec![]);
-    b.add("r", tx_r);
+    let tx_r =
+        b.script(vec![coin_input(genesis_utxo(2), COIN_AMOUNT)], vec![coin(own, 10_000_000)], 2600, MAX_FEE, vec![]);
+    let id_r = b.add("r", tx_r);
+    // s: two independent parents (a.1 and r.0), no diamond; a offers a low gas price, r does not
+    let tx_s = b.script(
+        vec![coin_input(UtxoId::new(id_a, 1), 30_000_000), coin_input(UtxoId::new(id_r, 0), 10_000_000)],
+        vec![],
+        3300,
+        MAX_FEE,
+        vec![],
+    );
+    b.add("s", tx_s);
     // n: missing coin; o: wrong amount vs the chain coin; p: wrong amount vs a's output
     let tx_n = b.script(vec![coin_input(genesis_utxo(9), COIN_AMOUNT)], vec![], 1100, MAX_FEE, vec![]);
     b.add("n", tx_n);
